@@ -1,9 +1,9 @@
 package c18
 
 import (
-	"crypto/sha256"
 	"bytes"
 	"context"
+	"crypto/sha256"
 	"fmt"
 	"io"
 	"math/rand"
@@ -30,6 +30,7 @@ type stk struct {
 	base   string
 	stop   func()
 	engine string
+	mode   string // the profile the engine is expected to run with
 	prof   string
 	wired  bool
 }
@@ -47,13 +48,13 @@ func startStackRT(eng, prof string, wired bool, b *backend.Std, rt, respT time.D
 			return nil, err
 		}
 		w.SetStatus("s", domain.StatusHealthy)
-		return &stk{base: w.Base, stop: w.Stop, engine: eng, prof: prof, wired: true}, nil
+		return &stk{base: w.Base, stop: w.Stop, engine: eng, prof: prof, mode: prof, wired: true}, nil
 	}
 	w, err := world.Start(spec)
 	if err != nil {
 		return nil, err
 	}
-	return &stk{base: w.Base, stop: w.Stop, engine: eng, prof: "auto(production)", wired: false}, nil
+	return &stk{base: w.Base, stop: w.Stop, engine: eng, prof: prof + "(production)", mode: prof, wired: false}, nil
 }
 
 func (s *stk) String() string { return s.engine + "/" + s.prof }
@@ -169,6 +170,11 @@ func TestC18(t *testing.T) {
 			stacks = append(stacks, sdef{eng, prof, true})
 		}
 		stacks = append(stacks, sdef{eng, "auto", false})
+		// the configured profile has to reach the engine through the production wiring too
+		stacks = append(stacks, sdef{eng, "streaming", false})
+		if rep.Thorough() {
+			stacks = append(stacks, sdef{eng, "standard", false})
+		}
 	}
 	var wg sync.WaitGroup
 	sem := make(chan struct{}, 4)
@@ -272,7 +278,7 @@ func liveness(run *rep.Run, rng *rand.Rand, s *stk, b *backend.Std, id int) {
 		}
 		inconclusive := false
 		gateWait := 5 * time.Second
-		if !(s.prof == "streaming" || (s.prof != "standard" && ct != "binary")) {
+		if !(s.mode == "streaming" || (s.mode != "standard" && ct != "binary")) {
 			gateWait = 250 * time.Millisecond
 		}
 		b.SetProxy(func(r *backend.Record) *backend.Resp {
@@ -302,7 +308,7 @@ func liveness(run *rep.Run, rng *rand.Rand, s *stk, b *backend.Std, id int) {
 			inconclusive = true
 		}
 		b.WaitIdle(2 * time.Second)
-		streamingExpected := s.prof == "streaming" || (s.prof != "standard" && ct != "binary")
+		streamingExpected := s.mode == "streaming" || (s.mode != "standard" && ct != "binary")
 		key := fmt.Sprintf("%s/live/%s/%s/chunked=%v", s, ct, sc, chunked)
 		run.Eval(key)
 		run.Count("liveness_cases", 1)
